@@ -16,9 +16,7 @@ def use_repo():
     if sys.path[0] != lib:
         sys.path.insert(0, lib)
     sys.dont_write_bytecode = True
-    for m in [m for m in sys.modules if m == 'yaml' or m.startswith('yaml.') or m == '_yaml']:
-        del sys.modules[m]
-    import yaml
+    import yaml          # imported once per process: the C extension cannot be re-imported
     assert os.path.realpath(yaml.__file__).startswith(os.path.realpath(lib)), yaml.__file__
     return yaml
 
